@@ -261,11 +261,11 @@ def reg_table():
         "UUID": (uuid.UUID, st.uuids()),
         "timedelta": (td, st.one_of(st.timedeltas(), st.sampled_from([td(0), td(days=-1, seconds=1), td(microseconds=1), td(days=1), td(days=999999999), td(days=1, hours=12), td(hours=-1),
                                                                       td(days=2, microseconds=5), td(seconds=86399, microseconds=999999), td(days=-999999999)]))),
-        "bytes": (bytes, st.binary(max_size=8)),
+        "bytes": (bytes, st.one_of(st.binary(max_size=8), st.sampled_from([__import__("base64").b64decode(x) for x in ("+1e5", "1e30", "true", "null", "1234")]))),  # (base64 texts that look like numbers / keywords)
         "bytearray": (bytearray, st.binary(max_size=8).map(bytearray)),
         "range": (range, st.one_of(st.builds(range, st.integers(-5, 5), st.integers(-5, 5), st.integers(-3, 3).filter(lambda s: s != 0)), st.builds(range, st.integers(-3, 3)),
                                    st.builds(range, st.integers(-3, 3), st.integers(-3, 3)), st.sampled_from([range(0, 10, 2), range(0), range(0, 0, 5), range(5, 0, -1), range(0, -6, -2)]))),
-        "Path": (pathlib.Path, st.sampled_from(["a", "/tmp/x", ".", "a/b", "a b", "1e3", "x.yaml", "..", "/", "a/../b", "é"]).map(pathlib.Path)),
+        "Path": (pathlib.Path, st.sampled_from(["a", "/tmp/x", ".", "a/b", "a b", "1e3", "x.yaml", "..", "/", "a/../b", "é", "-1e3", "+1e5", "-1.5e3", "1_0e3", ".5", "0x1F", "1:30", "true", "2001-01-01"]).map(pathlib.Path)),
         "PosixPath": (pathlib.PosixPath, st.sampled_from(["a", "/tmp/x", "a/b", "null", "~"]).map(pathlib.PosixPath)),
     }
 
@@ -362,7 +362,9 @@ def run_registered(ctx, case):
 
     def report(step, detail):
         sig = f"C20/registered/{k}/{step}"
-        if wrap == "opt" and step.startswith("roundtrip-differs") and str(v) in ("null", "Null", "NULL", "~"):
+        quoted_null = re.search(r"""['"](null|Null|NULL|~)['"]""", str(detail.get("dump", ""))) is not None and str(detail.get("got")) == "None"
+        if wrap == "opt" and step.startswith("roundtrip-differs") and (str(v) in ("null", "Null", "NULL", "~") or quoted_null):
+            # (also a value of another registered type whose *serialised text* spells null, e.g. bytes whose base64 is 'null')
             sig = "C20/F23/Optional-path-spelled-like-YAML-null-reads-back-as-None"
         elif k == "Decimal" and step.startswith(("roundtrip-differs", "argv")) and (decimal.Decimal(float(v)) != v or decimal.Decimal(repr(float(v))) != v):
             # the float the serializer produces, or its text (what a command line / config carries), is not the Decimal
